@@ -104,9 +104,10 @@ AStep(m, a, gs) ==
       steps   |-> m.steps + 1,
       lastdir |-> IF a \in Dirs THEN a ELSE m.lastdir]
 
+RECURSIVE SeqProduct(_, _)
+SeqProduct(opt, n) == IF n = 0 THEN { <<>> } ELSE { Append(sq, x) : sq \in SeqProduct(opt, n - 1), x \in opt[n] }
 GhostChoices(m, movable) ==            \* every joint choice; ghosts outside `movable` are frozen
-  { gs \in [1..NGhosts -> FreeCells] :
-      \A k \in 1..NGhosts : IF k \in movable THEN gs[k] \in GhostOptions(m.ghosts[k]) ELSE gs[k] = m.ghosts[k] }
+  SeqProduct([k \in 1..NGhosts |-> IF k \in movable THEN GhostOptions(m.ghosts[k]) ELSE {m.ghosts[k]}], NGhosts)
 
 ADone(m, T) == m.dead \/ m.pellets = {} \/ m.steps >= T
 AReward(m, a) == LET p1 == PlayerNext(m.player, a, m.lastdir) IN
